@@ -115,7 +115,10 @@ Print Assumptions C05_parse_is_run.
 (* C05_exact at byte level: a stream of valid frames fs whose decoded messages form a transfer
    history as in C05_exact (packet 1 first, then anything C05_exact allows), cut into reads in ANY
    way and processed at one instant: among everything parse delivers exactly one message for X is
-   flagged complete, its body is the concatenation of the packet bodies, and no read returns an error *)
+   flagged complete, its body is the concatenation of the packet bodies, and no read returns an error.
+   This is C05_exact's conclusion WITHOUT the position ("as soon as"): where the completed message
+   stands is stated at completePack level by C05_exact and, for the loop, by its construction (right
+   after the completing packet's own message) *)
 Theorem C05_segmentation_exact : forall X bodies fs chunks now p1 l1 t m l2,
   Forall vframe fs -> concat chunks = concat fs ->
   bodies <> [] -> Forall nonempty bodies ->
@@ -137,6 +140,17 @@ Theorem C05_unfragmented_identity : forall now ms s, Forall (fun rm => m_sum (sn
   cp_loop now s ms = (s, map (fun rm => {| p_raw := fst rm; p_msg := snd rm; p_complete := false |}) ms).
 Proof. exact cp_loop_unfragmented. Qed.
 Print Assumptions C05_unfragmented_identity.
+(* the same at parse level: with no transfer pending, a read whose extracted messages are all
+   unfragmented delivers exactly unpack's messages, returns unpack's error, and the transfer table
+   stays empty (expiry pass, loop and housekeeping are the identity) *)
+Theorem C05_parse_unfragmented : forall now st d, ps_x st = [] ->
+  Forall (fun rm => m_sum (snd rm) = 0) (u_msgs (unpack (ps_hist st) d)) ->
+  parse now st d =
+  ({| ps_hist := u_hist (unpack (ps_hist st) d); ps_x := [] |},
+   map (fun rm => {| p_raw := fst rm; p_msg := snd rm; p_complete := false |}) (u_msgs (unpack (ps_hist st) d)),
+   u_err (unpack (ps_hist st) d)).
+Proof. exact parse_unfragmented. Qed.
+Print Assumptions C05_parse_unfragmented.
 (* a decoded frame without the fragment bit is such a message *)
 Theorem C05_unfragmented_decoded : forall d m, decode d = Ok m -> m_frag m = 0 -> m_sum m = 0.
 Proof. exact decode_unfragmented_sum. Qed.
@@ -271,3 +285,22 @@ Example C05_example_handlers :
   handler_bodies 2049 (Reply.reader_obs (Reply.trace (Reply.init ds) (Reply.seq_sched ds))) = [[1; 2]] /\
   Reply.std_registered 2049 = true.
 Proof. vm_compute. repeat split; reflexivity. Qed.
+
+(* C05_segmentation_exact on the stream of C05_example_segmentation: its hypotheses (first message =
+   packet 1, the rest allowed by ev_ok, the split at the completing packet) and its conclusion *)
+Example C05_example_segmentation_exact :
+  let evs := map (fun rm => (0, EvMsg (snd rm))) (map decode_ok ex_fs) in
+  let p1 := snd (decode_ok (nth 0 ex_fs [])) in
+  let p2 := snd (decode_ok (nth 1 ex_fs [])) in
+  let bodies := [[65; 126]; [125; 66]] in
+  good_pkt 2049 (len bodies) bodies p1 /\ m_no p1 = 1 /\ hd_error evs = Some (0, EvMsg p1) /\
+  Forall (fun te => ev_ok 2049 (len bodies) bodies (snd te)) (tl evs) /\
+  evs = [(0, EvMsg p1)] ++ (0, EvMsg p2) :: [] /\
+  map snd (filter (fun c => fst c =? 2049) (completed_msgs (fst (feed_all 0 pst0 ex_chunks)))) = [concat bodies] /\
+  snd (feed_all 0 pst0 ex_chunks) = repeat None (length ex_chunks).
+Proof.
+  cbv zeta. split. { unfold good_pkt. vm_compute. repeat split; try reflexivity; discriminate. }
+  split. { vm_compute. reflexivity. } split. { vm_compute. reflexivity. }
+  split. { vm_compute. constructor; [|constructor]. right. left. unfold good_pkt. repeat split; try reflexivity; discriminate. }
+  vm_compute. repeat split; reflexivity.
+Qed.
